@@ -230,6 +230,52 @@ func runC17(c *Ctx) {
 		}
 	}
 	c.Floor("C17.G2-loops-agree", 6)
+	// ---- G5 a record is expanded from its own fields: the sources decode every record into fresh memory ---------
+	sourcesDecodeFresh(c, "C17.G5-records-decoded-fresh")
+	c.Floor("C17.G5-records-decoded-fresh", 2)
+	// ---- G6 the expansion is delivered as computed: the reader-privacy client sends every element GetResults
+	// returned, in order, without a filter of its own
+	if fa := c.Func("find/client", "DHashClient.FindAsync"); fa != nil {
+		nS := 0
+		for _, ss := range c.SendSites("find/client") {
+			if topFunc(ss.Fn) != fa.SSA {
+				continue
+			}
+			v := strip(ss.Val)
+			if v.Op != "index" {
+				continue
+			}
+			if _, m := Match(Extract("0", Call("pcache.ProviderCache).GetResults")), v.Args[0]); !m {
+				continue
+			}
+			nS++
+			// facts established inside the loop body (other than the loop's own continuation test)
+			var head *ssa.BasicBlock
+			sb := ss.At.Block()
+			for d := sb; d != nil && head == nil; d = d.Idom() {
+				for _, p := range d.Preds {
+					if d.Dominates(p) && ReachableFrom(sb)[p] {
+						head = d
+					}
+				}
+			}
+			filtered := ""
+			for _, fct := range c.FactsAt(sb) {
+				if fct.If == nil || head == nil {
+					continue
+				}
+				ib := fct.If.Block()
+				if ib != head && head.Dominates(ib) {
+					filtered = abbreviate(factString(fct))
+				}
+			}
+			c.Check(filtered == "", "C17.G6-expansion-delivered-whole", fa.Name+" › send of each expanded result", ss.Pos, "every element of the expansion is sent, unconditionally", "elements of the expansion are sent only under a condition of the client's own ("+filtered+"): entries the expansion rules require (the main provider's entry with new metadata, an extended provider listed at both levels) are dropped")
+		}
+		if nS == 0 {
+			c.Unk("C17.G6-expansion-delivered-whole", fa.Name, fa.SSA.Pos(), "no send of the elements of GetResults' result found")
+		}
+	}
+	c.Floor("C17.G6-expansion-delivered-whole", 1)
 
 	// ---- G3 ordering ----------------------------------------------------------------------------
 	var ctxLoop, chainLoop *epLoop
